@@ -238,6 +238,9 @@ func c14CheckBatch(run *vlib.Run, cases []schemaCase) (map[int][]vlib.Violation,
 		}
 		count(run, "documents", 1)
 		count(run, "disagreements_checked", 1)
+		if run != nil && len(r.Encoded) < 600 {
+			run.Sample(map[string]any{"format": c.Format, "definition": d.Def, "value": r.Encoded2, "converted_code": r.Encoded, "rebuilt": res.Encoded})
+		}
 		switch {
 		case res.NotAnExpression != "":
 			bad("not-an-expression:"+f+tag, "is not a Go expression: %s", res.NotAnExpression)
